@@ -19,4 +19,10 @@ TCase == /\ IsEvent("case")
          /\ Cur.built                                   \* compiling a valid configuration never fails
          /\ \A i \in DOMAIN Cur.results : ResultOK(Cur, Cur.results[i])
 TNext == TCase
+\* diagnosis (T_BPF_diag.cfg): accept everything but print the mismatching results
+TDiag == /\ IsEvent("case")
+         /\ \A i \in DOMAIN Cur.results :
+               ResultOK(Cur, Cur.results[i])
+               \/ PrintT(<<"MISMATCH", Cur.case, i, Cur.results[i].verdict, BPFVerdict(Cur.cfg, Cur.results[i].pkt, Cur.sets),
+                           Cur.results[i].log, Cur.results[i].pkt>>)
 =============================================================================
